@@ -100,3 +100,19 @@ Definition gt_canon_with (ok : list Z -> bool) (bs : list Z) (lg : Z) : option (
 
 Definition gt_canon_fast := gt_canon_with gt_fast_ok.
 Definition gt_canon_fast14 := gt_canon_with gt_fast14_ok.
+
+(* ---- compare_struct: the fraction branch of GeneralizedTime_compare (instants equal) ----
+   if(afrac_digits == bfrac_digits) by the values; else if(afrac_digits == 0) -1;
+   else if(bfrac_digits == 0) 1; else (double)afrac_value / afrac_digits against
+   (double)bfrac_value / bfrac_digits — the divisor is the NUMBER of digits.  The two
+   correctly rounded quotients of numbers below 2^31 by small positive integers compare
+   as the exact rationals do (distinct quotients differ by more than 2^-41 relatively),
+   so the doubles are modelled by cross-multiplication. *)
+Definition frac_cmp_c (av ad bv bd : Z) : comparison :=
+  if ad =? bd then av ?= bv
+  else if ad =? 0 then Lt
+  else if bd =? 0 then Gt
+  else av * bd ?= bv * ad.
+
+(* notes/design/C06-fix-9.diff: value / 10^digits on both sides *)
+Definition frac_cmp_fix (av ad bv bd : Z) : comparison := av * 10 ^ bd ?= bv * 10 ^ ad.
